@@ -86,6 +86,28 @@ impl SubCheck for RoundSub {
             o.unjudged = true;
             o = o.class("unjudged:inc>1-date-unit-largest!=smallest");
         }
+        // Pure re-balancing options on an already balanced duration: the specification snapshot the crate follows
+        // returns a copy without touching relativeTo (Duration.prototype.round, "roundingGranularityIsNoop ..."
+        // shortcut); the current text always adds and re-measures and therefore throws when relativeTo's midnight
+        // or the target is outside the limits. Exactly that cell (shortcut conditions hold, oracle = RangeError)
+        // is unjudged.
+        let f = &c.d.f;
+        let shortcut = c.smallest == U::Nanosecond
+            && c.inc == 1
+            && largest == existing
+            && f[0] == 0
+            && f[1] == 0
+            && f[2] == 0
+            && f[4].abs() < 24
+            && f[5].abs() < 60
+            && f[6].abs() < 60
+            && f[7].abs() < 1000
+            && f[8].abs() < 1000
+            && f[9].abs() < 1000;
+        if shortcut && want.is_err() {
+            o.unjudged = true;
+            o = o.class("unjudged:noop-rounding-with-operand-outside-limits");
+        }
         let date = plain_date(ymd).expect("valid date");
         let d = match duration_from_dur(&c.d) {
             Ok(d) => d,
@@ -374,8 +396,45 @@ fn ref_day() -> BoxedStrategy<i64> {
     .boxed()
 }
 
+/// durations whose time fields sit exactly on / next to a unit boundary (24 h, 60 min, 60 s, 1000 ms ...): the
+/// shapes for which "no rounding needed" must still re-balance
+fn boundary_dur() -> BoxedStrategy<Dur> {
+    let pick = |v: Vec<i128>| proptest::sample::select(v);
+    (
+        prop::bool::ANY,
+        (prop_oneof![3 => Just(0i128), 1 => 0i128..=2], prop_oneof![3 => Just(0i128), 1 => 0i128..=13], prop_oneof![4 => Just(0i128), 1 => 0i128..=3], prop_oneof![1 => Just(0i128), 2 => 0i128..=40]),
+        (pick(vec![0, 0, 1, 23, 24, 24, 25, 47, 48, 72]), pick(vec![0, 0, 0, 1, 59, 60, 61, 120, 1440]), pick(vec![0, 0, 0, 59, 60, 61, 3600, 86400])),
+        (pick(vec![0, 0, 0, 999, 1000, 1001]), pick(vec![0, 0, 0, 999, 1000, 1001]), pick(vec![0, 0, 0, 1, 999, 1000, 1001])),
+    )
+        .prop_map(|(neg, dd, t, u)| {
+            let mut f = [dd.0, dd.1, dd.2, dd.3, t.0, t.1, t.2, u.0, u.1, u.2];
+            if neg {
+                for x in f.iter_mut() {
+                    *x = -*x;
+                }
+            }
+            Dur { f }
+        })
+        .prop_filter("valid", |d| d.valid())
+        .boxed()
+}
+
 pub fn round_case() -> BoxedStrategy<RoundCase> {
-    (ref_day(), mixed_dur(), round_opts(), gen::mode()).prop_map(|(r, d, (largest, smallest, inc), mode)| RoundCase { r, d, largest, smallest, inc, mode }).boxed()
+    let general = (ref_day(), mixed_dur(), round_opts(), gen::mode()).prop_map(|(r, d, (largest, smallest, inc), mode)| RoundCase { r, d, largest, smallest, inc, mode });
+    // pure re-balancing: smallest unit nanosecond (or the duration's own smallest), increment 1, largest absent / auto
+    // / the duration's own largest unit / any larger one
+    let rebalance = (ref_day(), boundary_dur(), 0u8..6, 0usize..64, gen::mode(), prop::bool::weighted(0.8)).prop_map(|(r, d, lk, li, mode, ns)| {
+        let own = d.f.iter().position(|v| *v != 0).map(|i| UNITS[i]).unwrap_or(U::Nanosecond);
+        let smallest = if ns { U::Nanosecond } else { UNITS[9 - d.f.iter().rev().position(|v| *v != 0).unwrap_or(0)] };
+        let largest = match lk {
+            0 => LargestOpt::Absent,
+            1 => LargestOpt::Auto,
+            2 | 3 => LargestOpt::Unit(own.larger_of(smallest)),
+            _ => LargestOpt::Unit(UNITS[li * (own.larger_of(smallest).idx() + 1) / 64]),
+        };
+        RoundCase { r, d, largest, smallest, inc: 1, mode }
+    });
+    prop_oneof![5 => general, 1 => rebalance].boxed()
 }
 pub fn total_case() -> BoxedStrategy<TotalCase> {
     (ref_day(), mixed_dur(), gen::unit_in(0, 9)).prop_map(|(r, d, unit)| TotalCase { r, d, unit }).boxed()
@@ -435,7 +494,7 @@ pub fn until_case() -> BoxedStrategy<UntilCase> {
 }
 
 pub fn run(ctx: &mut Ctx) {
-    ctx.rule = "round: generated (reference date incl. month ends / Feb 29, valid duration mixing calendar and time units with both signs and exact half-day/half-hour ties, largest absent|auto|unit, smallest year..ns, admissible increment, 9 modes) -> Duration::round relative to the PlainDate against add-then-remeasure with exact rational progress (oracle self-tested against the test262 tables ported by the repo), plus oracle-free invariants (sign-uniform, zero residue below smallest, multiple of increment); total: every unit, against the correctly rounded exact rational (<= 1 ulp); compare: against the order of the instants the durations lead to (incl. the same span in another shape); until-rounded: the same machinery through PlainDateTime/PlainDate until/since with rounding options (since = negated mode, negated result). Cells with increment > 1, a date smallest unit and largest != smallest are unjudged (Temporal added a rejection after this snapshot). non-trivial = rounding carries into a larger unit, reference day >= 29, months and days both non-zero, negative, calendar smallest unit.".into();
+    ctx.rule = "round: generated (reference date incl. month ends / Feb 29, valid duration mixing calendar and time units with both signs and exact half-day/half-hour ties, largest absent|auto|unit, smallest year..ns, admissible increment, 9 modes) -> Duration::round relative to the PlainDate against add-then-remeasure with exact rational progress (oracle self-tested against the test262 tables ported by the repo; one case in six is a pure re-balancing case: time fields exactly on / next to 24 h, 60 min, 60 s, 1000 ms.., smallest unit nanosecond, increment 1, largest absent / auto / the duration's own largest / larger), plus oracle-free invariants (sign-uniform, zero residue below smallest, multiple of increment); total: every unit, against the correctly rounded exact rational (<= 1 ulp); compare: against the order of the instants the durations lead to (incl. the same span in another shape); until-rounded: the same machinery through PlainDateTime/PlainDate until/since with rounding options (since = negated mode, negated result). Cells with increment > 1, a date smallest unit and largest != smallest are unjudged (Temporal added a rejection after this snapshot). non-trivial = rounding carries into a larger unit, reference day >= 29, months and days both non-zero, negative, calendar smallest unit.".into();
     let t = ctx.tier;
     ctx.run_prop(&RoundSub, &round_case, t.pick(300_000, 10_000_000));
     ctx.run_prop(&TotalSub, &total_case, t.pick(200_000, 6_000_000));
